@@ -76,11 +76,15 @@ WakeAll(p, S) ==
   ELSE LET t == CHOOSE x \in S : \A y \in S : x <= y
        IN WakeAll(Wake(p, t), S \ {t})
 
-\* A task blocked in `rx.await` on the receiver at the head of its flushq.
+\* A commit task is blocked in `rx.await` on the receiver at the head of its flushq (flush awaits
+\* its receivers one after the other); a persist task waiting at the manifest barrier of the
+\* repair is blocked in `join_all` and is woken by any of its receivers.
 WaitingOn(p, cs) ==
   {t \in DOMAIN p.tasks : /\ p.tasks[t].pc = "await"
                           /\ p.tasks[t].flushq # <<>>
-                          /\ Head(p.tasks[t].flushq) \in cs}
+                          /\ IF p.tasks[t].kind = "persist"
+                               THEN Range(p.tasks[t].flushq) \cap cs # {}
+                               ELSE Head(p.tasks[t].flushq) \in cs}
 
 \* oneshot senders cs deliver `val` ("ok") or are dropped ("dropped")
 Resolve(p, cs, val) ==
@@ -102,7 +106,9 @@ DelEntry(q, path) == [x \in DOMAIN q \ {path} |-> q[x]]
 
 \* The other queue entries a manifest snapshot must wait for (Fix = "manifest_barrier").
 BarrierPaths(p, path) ==
-  IF Fix = "manifest_barrier" /\ path = MANIFEST THEN DOMAIN p.queue \ {MANIFEST} ELSE {}
+  IF Fix = "manifest_barrier" /\ path = MANIFEST
+    THEN {x \in DOMAIN p.queue \ {MANIFEST} : p.queue[x].pending # NoData}   \* snapshots queued right now
+    ELSE {}
 
 RECURSIVE AddBarrier(_, _, _)
 \* register one extra oneshot waiter on every entry in S; returns <<page, sequence of receivers>>
@@ -284,15 +290,10 @@ RunTask(t) ==
          tk == p0.tasks[t]
      IN /\ CASE tk.kind = "persist" /\ tk.pc = "start" ->
                   /\ pg' = LoopBody(p0, t) /\ app' = app
-             [] tk.kind = "persist" /\ tk.pc = "barrier" ->
-                  LET sk == SkipResolved(p0, tk.flushq)
-                  IN /\ pg' = IF sk[1] = <<>> THEN LoopBody([p0 EXCEPT !.tasks[t].flushq = <<>>], t)
-                              ELSE [p0 EXCEPT !.tasks[t].flushq = sk[1], !.tasks[t].pc = "await"]
-                     /\ app' = app
-             [] tk.kind = "persist" /\ tk.pc = "await" ->      \* woken while waiting at the barrier
-                  LET sk == SkipResolved(p0, tk.flushq)
-                  IN /\ pg' = IF sk[1] = <<>> THEN LoopBody([p0 EXCEPT !.tasks[t].flushq = <<>>], t)
-                              ELSE [p0 EXCEPT !.tasks[t].flushq = sk[1]]
+             [] tk.kind = "persist" /\ tk.pc \in {"barrier", "await"} ->   \* join_all(barrier).await
+                  LET open == SelectSeq(tk.flushq, LAMBDA c : p0.chan[c] = "open")
+                  IN /\ pg' = IF open = <<>> THEN LoopBody([p0 EXCEPT !.tasks[t].flushq = <<>>], t)
+                              ELSE [p0 EXCEPT !.tasks[t].flushq = open, !.tasks[t].pc = "await"]
                      /\ app' = app
              [] tk.kind = "persist" /\ tk.pc = "resume" ->
                   /\ pg' = LoopBody(Resolve([p0 EXCEPT !.tasks[t].waiters = {}], tk.waiters, "ok"), t)
